@@ -527,6 +527,9 @@ def describe(tier):
         "bounds": {
             "degenerate/segments/flags": "all real arguments (|theta_arc| <= 2*pi as end_to_center guarantees)",
             "accuracy": "|u| <= tan((pi/2+.001)/4), s in [0,1]; unit circle, start angle 0",
+            "radii": "all real end points, radii of either sign (non-zero), rotations " + ", ".join(str(r) for r in (RADII_ROTATIONS[:3] if tier == "quick" else RADII_ROTATIONS)) + " (cos/sin snapped to the Pythagorean rationals they equal within 1e-16)",
+            "flags": "rotation 0, radii of either sign, corrected by correct_out_of_range_radii; direction = sign(theta_arc) * sign(rx*ry)",
+            "centre": "base arcs scaled by a symbolic k > 0",
         },
         "outside": [
             "numeric values of sin/cos/tan/atan2 (libm); float cancellation at extreme magnitudes",
